@@ -36,6 +36,10 @@ func checkC06(c *Ctx) {
 	c.Rule("R6.3", "CheckedEntry.Write: all cores, then the hook, then recycle", 3)
 	c.Rule("R6.9", "Check discipline of every zapcore.Core implementation: a core that does not accept an entry hands back the checked entry it was given (an earlier branch's acceptance - and with it the write before the terminal hook - survives)", 8)
 	c.As(map[string]string{"R5.1": "R6.9"}, func() { c5CheckDiscipline(c) })
+	c.Rule("R6.11", "writers combined by CombineWriteSyncers (Open, Config.Build) are a multi-WriteSyncer: the Sync the IO core issues before a panic or exit reaches every one of them (an io.MultiWriter would swallow it)", 3)
+	c4LocksCombined(c, "R6.11")
+	c.Rule("R6.12", "the cheap level pre-checks of the front ends apply below DPanic only: from DPanic up a call always formats its message and reaches Logger.Check (the terminal action carries the message)", 10)
+	c.As(map[string]string{"R5.2": "R6.12"}, func() { c5PreChecks(c) })
 	c.Rule("R6.10", "a checked entry created by AddCore / After for an entry no core had accepted yet carries that entry (the default Panic action panics with its message, hooks receive it)", 2)
 	c6FreshEntryCarriesEntry(c, "R6.10")
 	c.Rule("R6.4", "ioCore.Write syncs after the write for DPanic/Panic/Fatal; BufferedWriteSyncer.Sync always syncs the sink", 4)
